@@ -25,28 +25,28 @@ import (
 )
 
 type pacDesc struct {
-	Table     map[string]string `json:"table"`      // host -> return string
-	Default   string            `json:"default"`    // for hosts not in the table
-	ErrHosts  []string          `json:"err_hosts"`  // hosts for which the script throws
-	NumHosts  []string          `json:"num_hosts"`  // hosts for which the script returns a number
+	Table    map[string]string `json:"table"`     // host -> return string
+	Default  string            `json:"default"`   // for hosts not in the table
+	ErrHosts []string          `json:"err_hosts"` // hosts for which the script throws
+	NumHosts []string          `json:"num_hosts"` // hosts for which the script returns a number
 	// hosts whose answer depends on the URL, not only on the host: [substring, value if url contains it, value otherwise]
 	ByURL map[string][3]string `json:"by_url,omitempty"`
 }
 
 type cfgDesc struct {
-	Upstream string   `json:"upstream,omitempty"` // "scheme://host:port"
-	UpFunc   string   `json:"upfunc,omitempty"`   // "", "direct", "fail", or "scheme://hostport": UpstreamProxyFunc's answer ...
+	Upstream     string            `json:"upstream,omitempty"`       // "scheme://host:port"
+	UpFunc       string            `json:"upfunc,omitempty"`         // "", "direct", "fail", or "scheme://hostport": UpstreamProxyFunc's answer ...
 	UpFuncByHost map[string]string `json:"upfunc_by_host,omitempty"` // ... unless the request's host is listed here
-	PAC      *pacDesc `json:"pac,omitempty"`
-	Direct   []string `json:"direct"`             // nil: no --direct-domains
-	Mode     string   `json:"mode"`
-	Rules    []string `json:"rules"`              // --connect-to entries
-	MITM     bool     `json:"mitm,omitempty"`     // --mitm: CONNECT is terminated by the proxy, inner requests are routed
-	Attempts int      `json:"dial_attempts"`      // --dial-attempts (Dialer retry); <= 0 means 1
-	FailFirst int     `json:"fail_first_dials"`   // scripted environment: that many socket requests fail first, per request
-	IDNA     bool     `json:"idna_corpus,omitempty"` // corpus marker: exercise IDNA-mapped spellings of special hosts
-	Aliases  bool     `json:"aliases_corpus,omitempty"` // corpus marker: loopback aliases of the injected hosts file
-	Socks2   bool     `json:"socks2_corpus,omitempty"`  // corpus marker: CONNECT sequences over two SOCKS5 proxies
+	PAC          *pacDesc          `json:"pac,omitempty"`
+	Direct       []string          `json:"direct"` // nil: no --direct-domains
+	Mode         string            `json:"mode"`
+	Rules        []string          `json:"rules"`                    // --connect-to entries
+	MITM         bool              `json:"mitm,omitempty"`           // --mitm: CONNECT is terminated by the proxy, inner requests are routed
+	Attempts     int               `json:"dial_attempts"`            // --dial-attempts (Dialer retry); <= 0 means 1
+	FailFirst    int               `json:"fail_first_dials"`         // scripted environment: that many socket requests fail first, per request
+	IDNA         bool              `json:"idna_corpus,omitempty"`    // corpus marker: exercise IDNA-mapped spellings of special hosts
+	Aliases      bool              `json:"aliases_corpus,omitempty"` // corpus marker: loopback aliases of the injected hosts file
+	Socks2       bool              `json:"socks2_corpus,omitempty"`  // corpus marker: CONNECT sequences over two SOCKS5 proxies
 }
 
 func (p *pacDesc) script() string {
@@ -135,19 +135,19 @@ func (m *recordingMatcher) take() []string {
 }
 
 type rig struct {
-	desc    cfgDesc
-	w       *world
-	hp      *forwarder.HTTPProxy
-	rt      *http.Transport
-	pac     *recordingPAC
-	direct  *recordingMatcher
-	script  string
-	rules   []forwarder.HostPortPair
+	desc       cfgDesc
+	w          *world
+	hp         *forwarder.HTTPProxy
+	rt         *http.Transport
+	pac        *recordingPAC
+	direct     *recordingMatcher
+	script     string
+	rules      []forwarder.HostPortPair
 	ruleFields []forwarder.HostPortPair
-	addr    string
-	cancel  context.CancelFunc
-	done    chan struct{}
-	upfuncR string
+	addr       string
+	cancel     context.CancelFunc
+	done       chan struct{}
+	upfuncR    string
 }
 
 // upFuncAnswer is the (harness-defined) external proxy function: its answer for a host.
@@ -270,16 +270,16 @@ func (r *rig) close() {
 }
 
 type obsJSON struct {
-	Dials  []string    `json:"dials"`
-	Recv   []recvEvent `json:"recv"`
-	Status int         `json:"status"`
-	Inner  int         `json:"inner_status,omitempty"`
-	Err    string      `json:"err,omitempty"`
-	OK     bool        `json:"ok"`
-	Reopened bool      `json:"reopened,omitempty"`
-	InTLS    bool      `json:"sent_inside_mitm_session,omitempty"` // the request was written inside a MITM'd TLS session
-	Pac    []pacCall   `json:"pac_calls,omitempty"`
-	Match  []string    `json:"matcher_args,omitempty"`
+	Dials    []string    `json:"dials"`
+	Recv     []recvEvent `json:"recv"`
+	Status   int         `json:"status"`
+	Inner    int         `json:"inner_status,omitempty"`
+	Err      string      `json:"err,omitempty"`
+	OK       bool        `json:"ok"`
+	Reopened bool        `json:"reopened,omitempty"`
+	InTLS    bool        `json:"sent_inside_mitm_session,omitempty"` // the request was written inside a MITM'd TLS session
+	Pac      []pacCall   `json:"pac_calls,omitempty"`
+	Match    []string    `json:"matcher_args,omitempty"`
 }
 
 // A session is a client's view: several requests, each on its own connection to the proxy or all on ONE
